@@ -450,8 +450,9 @@ def unjson(x):
 
 def _chunk(args):
     fam, seed, start, count = args
-    if "model" not in _W:
+    if _W.get("pid") != os.getpid():       # never share the pipe of a model process inherited through fork
         _W["model"] = fw.ModelProc("algo")
+        _W["pid"] = os.getpid()
     gen = getattr(FA, fam)
     st = dict(runs=0, actions=0, states=0, user_ops=0, engine_calls=0, rounds=0, oof=0, not_in_fragment=0, stuck=0,
               loop_errors=0, final_unequal=0, inv_states=0, quiet_states=0, opkinds={}, distinct=set(), samples=[])
@@ -504,7 +505,7 @@ def _chunk(args):
     return st, fails
 
 
-def explore(seed, fam, n, procs=8):
+def explore(seed, fam, n, procs=4):
     chunk = max(10, min(100, n // (procs * 2) or 1))
     jobs = [(fam, seed, s, min(chunk, n - s)) for s in range(0, n, chunk)]
     if procs <= 1 or len(jobs) == 1:
@@ -565,9 +566,15 @@ def corpus_cases():
 
 
 PLAN = [  # family, quick, thorough
-    ("f1_one_sided", 150, 8000), ("f1_two_sided", 150, 8000),
-    ("f2_one_sided", 100, 6000), ("f2_two_sided", 100, 6000),
-    ("f3_one_sided", 100, 6000), ("f3_two_sided", 100, 6000),
+    ("f1_one_sided", 120, 6000), ("f1_two_sided", 120, 6000),
+    ("f2_one_sided", 60, 4000), ("f2_two_sided", 60, 4000),
+    ("f3_one_sided", 60, 4000), ("f3_two_sided", 60, 4000),
+]
+# the share of the tie that C01 / C03 run as one of their streams: algo_stream(ctx, streams, plan=PLAN_LIGHT)
+PLAN_LIGHT = [
+    ("f1_one_sided", 80, 2000), ("f1_two_sided", 80, 2000),
+    ("f2_one_sided", 40, 1000), ("f2_two_sided", 40, 1000),
+    ("f3_one_sided", 40, 1000), ("f3_two_sided", 40, 1000),
 ]
 
 
